@@ -259,6 +259,16 @@ def run_shard(ctx):
                 kernel.LOG.reset_case({"graph": gd, "graph2": gd2, "op": op, "S": sorted(S)})
                 kernel.violation(PROP, "insertion-order", f"{op} differs between two insertion orders of one graph")
     ctx.extras["hostile_classes"] = hostile_seen
+    # 2a'. cyclic graphs with self-loops (x -> x): the edge-set operations are defined "acyclic or not"
+    loop_ops = {"subgraph", "remove_in_edges", "remove_out_edges", "remove_nodes_from", "ancestors_inclusive",
+                "descendants_inclusive", "districts", "moralize", "disorient"}
+    for _ in range(ctx.share({"quick": 300, "thorough": 6000}[ctx.tier])):
+        gd = gg.random_admg(rng, rng.randint(3, 6))
+        loops = rng.sample(gd["nodes"], rng.randint(1, 2))
+        gd = dict(gd, di=gd["di"] + [[x, x] for x in loops] + ([[gd["di"][0][1], gd["di"][0][0]]] if gd["di"] and rng.random() < 0.3 else []),
+                  hostile="self-loops")
+        for S in ([], rng.sample(gd["nodes"], rng.randint(1, len(gd["nodes"]) - 1)), [loops[0]]):
+            apply_ops(ctx, gd, S, False, ops=loop_ops)
     # 2b. graphs over counterfactual variables: two nodes share one ``.name`` (A and A@-x), as in the parallel-worlds
     # and counterfactual graphs ID* builds - the definitions speak about nodes, never about their names
     twin_ops = set(SET_OPS) | {"districts", "moralize", "disorient", "topological_sort", "pre", "pre(order)",
